@@ -103,7 +103,7 @@ def _run(ctx):
             tpl = empty_funds
         elif root_fn.path == fr_.add_decimals[3].path and kind == PX + "::UpdateNativeTokenDecimals":
             from . import c17 as _c17
-            raw_items = _c17.raw_scan_items(ctx, root_fn)
+            raw_items = _c17.raw_scan_items(ctx, root_fn, any_filter=True)
             tpl = all(re.match(r"^human\(mload\(%s\)\[.*\]\.contract_addr\)$" % re.escape(N.PAIRS), t) or
                       any(t == "human(%s.1.contract_addr)" % it for it in raw_items) for t in tgt) and empty_funds
         if tpl is None and kind.startswith(PX + "::") and empty_funds and root_fn.crate == "halo_factory":
